@@ -8,11 +8,12 @@ from engine import repo
 from engine.pathsym import pdmodel, symdata
 from engine.pathsym.core import SymBool, SymInt, Violation, model_value
 from engine.pathsym.symstr import SymStr, levenshtein_ref, levenshtein_term
-from . import h_join, oracle, ref, scenario
+from . import h_join, oracle, ref, scenario, tracecheck
 
 DEFAULTS = dict(entry='ed_join', nl=1, nr=1, minlen=0, maxlen=3, q=[2], padding=[True],
                 return_set=[False], taus=[1], comp_ops=['<='], missing=False, allow_missing=[False],
-                out_sim_score=[True], n_jobs=[1], filter=None, props=None, lens=None, alphabet=None)
+                out_sim_score=[True], n_jobs=[1], filter=None, props=None, lens=None, alphabet=None,
+                validate_every=200)
 CHAR_LO, CHAR_HI = 33, 0x24F
 _COUNTER = [0]
 
@@ -254,7 +255,12 @@ def make(cfg_in):
         sample = None
         if _COUNTER[0] <= 2:
             sample = detail('-', '-', '-')(c.get_model())
-        return {'nontrivial': nontriv, 'tags': [], 'sample': sample}
+        tags = []
+        if entry != 'ed_split' and not cfg.get('default_tok'):
+            vp = (props and sorted(props - {'CRASH'})[0]) or 'C03'
+            if tracecheck.maybe_validate(c, 'h_ed', detail(vp, 'trace-validation', '-'), cfg['validate_every'], vp):
+                tags.append('validated')
+        return {'nontrivial': nontriv, 'tags': tags, 'sample': sample}
 
     return h
 
